@@ -47,6 +47,21 @@ def programs(tier):
                 ["sprobe", "S2"], ["probe"]]
         progs.append({"objects": {}, "main": main, "tasks": {}, "env": [],
                       "label": f"{k1}({d1}) > {k2}({d2},shield={sh2}) sleeps={a,b,c,d} set={sd}"})
+    # the shield of a deadline scope is switched on only after entry (possibly under an already
+    # cancelled encloser), and off again
+    for (k1, k2), d1, d2, a in itertools.product(
+            kinds, [-1, 0, 1, "inf"], [1, 2] if tier == "quick" else [0, 1, 2, 4, "inf"], (None, 0, 1)):
+        inner = [["set_shield", "S2", True], ["sleep", 3], ["probe"], ["set_shield", "S2", False],
+                 ["cp"], ["probe"]]
+        s2 = ["try", [["scope", "S2", {"kind": k2, "deadline": d2, "shield": False}, inner]],
+              {"timeout": []}]
+        s1 = ["try", [["scope", "S1", {"kind": k1, "deadline": d1},
+                       ([] if a is None else [sl(a)]) + [["probe"], s2, ["cp"], ["probe"]]]],
+              {"timeout": []}]
+        main = [s1, ["sprobe", "S1"], ["sprobe", "S2"], ["sleep", 6], ["sprobe", "S1"],
+                ["sprobe", "S2"], ["probe"]]
+        progs.append({"objects": {}, "main": main, "tasks": {}, "env": [],
+                      "label": f"{k1}({d1}) > {k2}({d2}) shield switched on after entry, a={a}"})
     if tier != "quick":
         # depth 3, group with a child inside deadline scopes
         for d1, d2, d3 in itertools.product([1, 2, 4, "inf"], repeat=3):
@@ -142,6 +157,10 @@ def check(program, ex):
                     if sc.fired(T)[1]:
                         sc.rearmed_after_fire = True
                     sc.hist.append((T, val))
+        elif k == "x" and ev[5] == "set_shield" and ev[7][0] == "ok":
+            for sc in stack:
+                if sc.name == ev[6][0]:
+                    sc.shield = ev[6][1]
         elif k == "b" and ev[5] in ("cp", "sleep"):
             begun[ev[4]] = (T, ev[5], ev[6])
         elif k == "e" and ev[4] in begun:
